@@ -9,7 +9,7 @@ Each edit: {"name", "prop", "file", "old", "new", "expect": "violation"|"ok", "o
 """
 import json, os, shutil, subprocess, sys, tempfile, time
 V = os.path.dirname(os.path.abspath(__file__))
-REPO = "/repo"
+REPO = os.environ.get("VERIF_SELFTEST_REPO", "/repo")
 unit = sys.argv[1]
 only = sys.argv[3] if len(sys.argv) > 3 and sys.argv[2] == "--only" else None
 spec = json.load(open(os.path.join(V, "selftest", unit + ".json")))
